@@ -205,6 +205,13 @@ func cmdCheck(args []string) int {
 				// panic-freedom harness: every completed symbolic path is an obligation (no panic reachable on it)
 				rep.Distinct++
 			}
+			if cfg.PanicIsViolation && (p.Outcome == "return" || p.Outcome == "done" || p.Outcome == "panic") {
+				// panic-freedom of this path: every panic condition on it was decided by the solver
+				rep.Obligations++
+				if p.Outcome != "panic" {
+					rep.Discharged++
+				}
+			}
 			for _, o := range p.Oblig {
 				rep.Obligations++
 				switch o.Verdict {
@@ -243,7 +250,7 @@ func cmdCheck(args []string) int {
 					vr.Confirmed = "symbolic-trace"
 				}
 			}
-			if len(p.Violations) == 0 && p.HasModel && (p.Outcome == "return" || p.Outcome == "done") {
+			if _, inc := p.Model["__incomparable"]; len(p.Violations) == 0 && p.HasModel && !inc && (p.Outcome == "return" || p.Outcome == "done") {
 				okPaths = append(okPaths, p)
 			}
 		}
@@ -325,6 +332,10 @@ func cmdCheck(args []string) int {
 				rep.NativeAgree++
 			} else {
 				rep.NativeDiffs = append(rep.NativeDiffs, crossCases[i].Harness+" "+fmt.Sprint(p.Decisions)+": "+d)
+				if os.Getenv("GOSYM_DEBUG") != "" {
+					b, _ := json.MarshalIndent(map[string]interface{}{"diff": d, "values": crossCases[i].Values, "native": results[i], "events": p.Events, "reached": p.Reached}, "", " ")
+					os.WriteFile(filepath.Join(*verif, "build", "tmp", fmt.Sprintf("mismatch_%d.json", i)), b, 0o644)
+				}
 			}
 		}
 	}
@@ -336,6 +347,10 @@ func cmdCheck(args []string) int {
 	for _, vr := range rep.Violations {
 		if vr.Confirmed == "unconfirmed" {
 			rep.Inconclusive++
+			if os.Getenv("GOSYM_DEBUG") != "" {
+				b, _ := json.MarshalIndent(map[string]interface{}{"key": vr.Key, "harness": vr.Harness, "values": vr.Model, "native": vr.Native, "events": vr.Events}, "", " ")
+				os.WriteFile(filepath.Join(*verif, "build", "tmp", "unconfirmed_"+sanitize(vr.Key)+".json"), b, 0o644)
+			}
 			rep.Lines = append(rep.Lines, fmt.Sprintf("INCONCLUSIVE: property=%s %s (solver model did not reproduce natively; not reported as a violation): %s", id, vr.Key, firstLine(vr.Detail)))
 			continue
 		}
@@ -438,8 +453,11 @@ func nativeConfirms(vr *ViolationReport, n *nativeResult) bool {
 		}
 		// the panicking function must appear in the native stack
 		fn := key[len("panic:"):]
-		if i := strings.LastIndex(fn, ":"); i >= 0 {
-			fn = fn[:i]
+		// strip ":kind:srchash"
+		for k := 0; k < 2; k++ {
+			if i := strings.LastIndex(fn, ":"); i >= 0 {
+				fn = fn[:i]
+			}
 		}
 		short := fn
 		if i := strings.LastIndex(short, "/"); i >= 0 {
